@@ -114,10 +114,29 @@ theorem edif_roundtrip_closed_form (n : CNetlist) (nident nname : Str) (prog ver
   netlist_roundtrip n nident nname prog ver lws t tident tname li di y mo d h mi s hok
 
 /-!
+Scope of `WFNet` (the hypothesis of `edif_roundtrip` / `edif_roundtrip_text`) against C03's quantifier
+"every netlist the composer accepts":
+
+* names, original identifiers, string property values, program / version strings: ANY characters except
+  the double quote and CR / LF (`isStringChar`; the model's string token follows
+  docs/fixes/edif_string_token_any_char.diff — the unrepaired reader accepts printable ASCII + TAB
+  only, finding `edif.reader.string_token_charset`);
+* a multi-wire / array cable whose name starts with a backslash is outside (`bracketAllowed`; pinned
+  finding `edif.reader.backslash_bus_cable`), as is a scalar cable named like a bus bit (pinned
+  `edif.convention.scalar_net_named_like_bus_bit`);
+* property values are str / bool / int (float / None: pinned `edif.writer.non_integer_property_value`);
+  the legacy data key `oldName` is absent (`edif.writer.oldname_raw_rename`);
+* identifiers are the ones `_edifify_netlist` assigns (legal EDIF identifiers, distinct ignoring case
+  among siblings), read back from the implementation.
+
 `parse_compose_parse` (parse(compose(parse f)) = parse f for every accepted f) is NOT proved as a
-theorem: it needs "every netlist the reader returns satisfies `WFNet` after `_edifify_netlist`", which
-is false at the pinned commit exactly on the open findings (direction-less ports, one-pin arrays) and
-otherwise is evaluated on the implementation for every generated text and bundled file.
+theorem: it needs the closure property "every netlist the reader returns satisfies `WFNet` after
+`_edifify_netlist`".  The two defects that made that false at the first pin (direction-less ports,
+one-pin arrays) are repaired in the implementation (31cdd4c, 2bda99b) and in the model; what is still
+missing is a model of `_edifify_netlist` itself (identifier assignment and cell order are read from the
+implementation, C17 / C16) and a proof that `ofSExp`'s output satisfies the remaining clauses of
+`WFNet` (sibling names distinct ignoring case, pins used once, references to preceding cells).  It is
+evaluated on the implementation for every generated text and bundled file.
 -/
 
 /-- **edif_roundtrip_cell / cell_roundtrip** — the statement for ONE cell in the reader's scope: the
